@@ -297,6 +297,46 @@ func (s *Sim) CheckReload(x int) error {
 				"(%s)", name, k.Kind, k.ID, n.what)
 		}
 	}
+	// "Already resolved" marks: an HTLC of one log is marked iff the other
+	// log holds a settle/fail for it (a missing mark lets the HTLC be
+	// resolved twice, a phantom mark blocks an honest settle/fail).
+	wantModLocal, wantModRemote := map[uint64]bool{}, map[uint64]bool{}
+	for _, e := range snap.RemoteLog {
+		if e.Type == "settle" || e.Type == "fail" || e.Type == "malformed" {
+			wantModLocal[e.ParentIndex] = true
+		}
+	}
+	for _, e := range snap.LocalLog {
+		if e.Type == "settle" || e.Type == "fail" || e.Type == "malformed" {
+			wantModRemote[e.ParentIndex] = true
+		}
+	}
+	cmpMod := func(which string, got []uint64, want map[uint64]bool) error {
+		g := map[uint64]bool{}
+		for _, id := range got {
+			g[id] = true
+			if !want[id] {
+				return violationf("%s reloaded: HTLC %d of the %s log "+
+					"is marked as already settled/failed but no "+
+					"restored update resolves it", name, id, which)
+			}
+		}
+		for id := range want {
+			if !g[id] {
+				return violationf("%s reloaded: a restored update "+
+					"resolves HTLC %d of the %s log but the HTLC is "+
+					"not marked as resolved", name, id, which)
+			}
+		}
+		return nil
+	}
+	if err := cmpMod("local", snap.ModifiedLocal, wantModLocal); err != nil {
+		return err
+	}
+	if err := cmpMod("remote", snap.ModifiedRemote, wantModRemote); err != nil {
+		return err
+	}
+
 	// Every HTLC of a persisted commitment is in the matching log.
 	commits := []*channeldb.ChannelCommitment{
 		&fetched.LocalCommitment, &fetched.RemoteCommitment,
